@@ -1,7 +1,7 @@
-// C05-O4 (Handshake packet, RFC 9000 17.2.4): the real header decoder / encoder vs the independent
+// C05-O4 (0-RTT packet, RFC 9000 17.2.3): the real header decoder / encoder vs the independent
 // reference parser in packet_ref.rs.
-//   Handshake Packet {
-//     Header Form (1) = 1, Fixed Bit (1) = 1, Long Packet Type (2) = 2, Reserved Bits (2),
+//   0-RTT Packet {
+//     Header Form (1) = 1, Fixed Bit (1) = 1, Long Packet Type (2) = 1, Reserved Bits (2),
 //     Packet Number Length (2), Version (32), Destination Connection ID Length (8),
 //     Destination Connection ID (0..160), Source Connection ID Length (8),
 //     Source Connection ID (0..160), Length (i), Packet Number (8..32), Packet Payload (8..),
@@ -26,7 +26,7 @@ fn peeked_version(b: &[u8]) -> u32 {
 fn diff<const N: usize>(orig: [u8; N], len: usize) -> bool {
     let mut bytes = orig;
     let version = peeked_version(&orig);
-    let res = ProtectedHandshake::decode(orig[0], version, DecoderBufferMut::new(&mut bytes[..len]));
+    let res = ProtectedZeroRtt::decode(orig[0], version, DecoderBufferMut::new(&mut bytes[..len]));
     match (res, ref_numbered(&orig[..len], false, V1_MAX_CID)) {
         (Ok((packet, rest)), Some(r)) => {
             kani::cover!(r.front.dcid_len > 0 && r.front.scid_len > 0 && r.length > 0, "both connection ids and a payload");
@@ -67,16 +67,16 @@ fn diff<const N: usize>(orig: [u8; N], len: usize) -> bool {
     }
 }
 
-// every byte string of 5..=24 bytes whose first byte says Handshake
+// every byte string of 5..=24 bytes whose first byte says 0-RTT
 const N: usize = 24;
 
 #[cfg_attr(kani, kani::proof)]
 #[cfg_attr(kani, kani::unwind(9))]
-fn verif_packet_handshake_decode_diff() {
+fn verif_packet_zero_rtt_decode_diff() {
     let orig: [u8; N] = kani::any();
     let len: usize = kani::any();
     kani::assume(len >= 5 && len <= N);
-    kani::assume(orig[0] >> 4 == 0b1110);
+    kani::assume(orig[0] >> 4 == 0b1101);
     diff(orig, len);
 }
 
@@ -87,11 +87,11 @@ const N_CID: usize = 52;
 
 #[cfg_attr(kani, kani::proof)]
 #[cfg_attr(kani, kani::unwind(9))]
-fn verif_packet_handshake_cid_bound() {
+fn verif_packet_zero_rtt_cid_bound() {
     let orig: [u8; N_CID] = kani::any();
     let len: usize = kani::any();
     kani::assume(len >= 5 && len <= N_CID);
-    kani::assume(orig[0] >> 4 == 0b1110);
+    kani::assume(orig[0] >> 4 == 0b1101);
     let accepted = diff(orig, len);
     let dl = orig[5] as usize;
     if dl <= 21 {
@@ -102,8 +102,8 @@ fn verif_packet_handshake_cid_bound() {
     }
 }
 
-// encode -> reference parse -> decode.  `EncoderValue for Handshake<_, _, TruncatedPacketNumber, _>` is the
-// keyless whole-packet encoder; its header part is `Handshake::encode_header`, the function the
+// encode -> reference parse -> decode.  `EncoderValue for ZeroRtt<_, _, TruncatedPacketNumber, _>` is the
+// keyless whole-packet encoder; its header part is `ZeroRtt::encode_header`, the function the
 // production `PacketEncoder::encode_packet` emits the header with (packet_encoding.rs drives that one).
 const CID: usize = 20;
 const PAYLOAD: usize = 4;
@@ -111,7 +111,7 @@ const CAP: usize = 1 + 4 + 1 + CID + 1 + CID + 1 + 4 + PAYLOAD;
 
 #[cfg_attr(kani, kani::proof)]
 #[cfg_attr(kani, kani::unwind(22))]
-fn verif_packet_handshake_roundtrip() {
+fn verif_packet_zero_rtt_roundtrip() {
     use crate::packet::number::TruncatedPacketNumber;
     let version: u32 = kani::any();
     let dcid_bytes: [u8; CID] = kani::any();
@@ -124,7 +124,7 @@ fn verif_packet_handshake_roundtrip() {
     let raw: u32 = kani::any();
     let pn_len: usize = kani::any();
     kani::assume(pn_len >= 1 && pn_len <= 4);
-    let space = PacketNumberSpace::Handshake;
+    let space = PacketNumberSpace::ApplicationData;
     let (tpn, pn_val) = match pn_len {
         1 => (TruncatedPacketNumber::new(raw as u8, space), (raw as u8) as u32),
         2 => (TruncatedPacketNumber::new(raw as u16, space), (raw as u16) as u32),
@@ -134,7 +134,7 @@ fn verif_packet_handshake_roundtrip() {
         ),
         _ => (TruncatedPacketNumber::new(raw, space), raw),
     };
-    let packet = Handshake {
+    let packet = ZeroRtt {
         version,
         destination_connection_id: &dcid_bytes[..dl],
         source_connection_id: &scid_bytes[..sl],
@@ -151,8 +151,8 @@ fn verif_packet_handshake_roundtrip() {
     kani::cover!(written == CAP, "largest packet: 20/20-byte connection ids, 4-byte packet number, 4-byte payload");
     kani::cover!(written == 9, "smallest packet");
     assert!(size == written);
-    // 17.2.4 first byte: form 1, fixed 1, type 2, reserved 00, packet number length - 1
-    assert!(storage[0] == 0b1110_0000 | (pn_len as u8 - 1));
+    // 17.2.3 first byte: form 1, fixed 1, type 1, reserved 00, packet number length - 1
+    assert!(storage[0] == 0b1101_0000 | (pn_len as u8 - 1));
     let orig = storage;
     match ref_numbered(&orig[..written], false, V1_MAX_CID) {
         Some(r) => {
@@ -181,9 +181,9 @@ fn verif_packet_handshake_roundtrip() {
                 assert!(orig[r.header_len + pn_len + k] == payload_bytes[k]);
             }
         }
-        None => panic!("encoder output is not a well-formed Handshake packet"),
+        None => panic!("encoder output is not a well-formed 0-RTT packet"),
     }
-    let (back, rest) = ProtectedHandshake::decode(orig[0], peeked_version(&orig), DecoderBufferMut::new(&mut storage[..written])).unwrap();
+    let (back, rest) = ProtectedZeroRtt::decode(orig[0], peeked_version(&orig), DecoderBufferMut::new(&mut storage[..written])).unwrap();
     assert!(rest.is_empty());
     assert!(back.version == version);
     assert!(back.destination_connection_id().len() == dl);
@@ -204,8 +204,8 @@ fn verif_packet_handshake_roundtrip() {
 #[test]
 fn verif_replay() {
     kani::replay(&[
-        ("verif_packet_handshake_decode_diff", verif_packet_handshake_decode_diff),
-        ("verif_packet_handshake_cid_bound", verif_packet_handshake_cid_bound),
-        ("verif_packet_handshake_roundtrip", verif_packet_handshake_roundtrip),
+        ("verif_packet_zero_rtt_decode_diff", verif_packet_zero_rtt_decode_diff),
+        ("verif_packet_zero_rtt_cid_bound", verif_packet_zero_rtt_cid_bound),
+        ("verif_packet_zero_rtt_roundtrip", verif_packet_zero_rtt_roundtrip),
     ]);
 }
